@@ -16,7 +16,7 @@ RULE = ("files x read options x short handle histories. Files: W = written by fa
         "numpy ints that do hold NULLs, time zones spelled three ways, range / unnamed / named index, categoricals "
         "with and without a plain-encoded fallback row group); H = hive datasets with 1-2 partition columns; "
         "I = frames written with a named index of 14 kinds (ints, floats, text, bool, masked, categorical, "
-        "timestamps of several units and time zones, timedelta; with and without a missing value in the index); "
+        "timestamps of several units and time zones, timedelta; with and without a missing value in the index; also the zero-row slice pf[:0] of such a file and the file written from zero rows); "
         "I2 = frames written with a two-level index. Options: columns (None, each single, reversed; on hive datasets also selections naming the partition columns before / between / after data columns and in reversed level order), categories "
         "(None, list, dict, [] and {} = decline the stored categoricals; list / dict also on dictionary-encoded "
         "foreign columns), index (None, False, name of another data or partition column, list of two names), "
@@ -617,6 +617,18 @@ def run_I(c, p):
             "I index kind %s nrg=%d%s%s" % (kind, nrg, " null in the index" if p.get("ixnull") else "",
                                             " int96" if kw else ""),
             ["ix", "a", "t", "s"], index_names=("t", "a"))
+    if nrg != 1:
+        return
+    # selections of zero rows: what the handle announces (index, dtypes) is still what the (empty) frame must have
+    compare(c, lambda pn, path=path, **k: fastparquet.ParquetFile(path, pandas_nulls=pn, **k)[:0],
+            "I index kind %s zero-row slice" % kind, ["ix", "a", "t", "s"], index_names=("t", "a"), extras=False)
+    path0 = os.path.join(d, "t0.parquet")
+    try:
+        fastparquet.write(path0, df.iloc[:0], write_index=True, **kw)
+    except Exception:
+        return
+    compare(c, lambda pn, path=path0, **k: fastparquet.ParquetFile(path, pandas_nulls=pn, **k),
+            "I index kind %s file without rows" % kind, ["ix", "a", "t", "s"], index_names=("t", "a"), extras=False)
 
 
 def run_I2(c, p):
